@@ -5,9 +5,9 @@ from .. import lanes
 
 SUBSETS = {
     'C01': ('V.splat', 'V.load_aligned', 'V.load_unaligned', 'V.cmpeq', 'V.or', 'V.movemask', 'V.movemask_will_have_non_zero',
-            'M.has_non_zero', 'M.or', 'M.first_offset'),
+            'M.has_non_zero', 'M.or', 'M.first_offset', 'S.has_zero_byte', 'S.splat'),
     'C02': ('V.splat', 'V.load_aligned', 'V.load_unaligned', 'V.cmpeq', 'V.or', 'V.movemask', 'V.movemask_will_have_non_zero',
-            'M.has_non_zero', 'M.or', 'M.last_offset'),
+            'M.has_non_zero', 'M.or', 'M.last_offset', 'S.has_zero_byte', 'S.splat'),
     'C07': ('V.splat', 'V.load_aligned', 'V.load_unaligned', 'V.cmpeq', 'V.movemask', 'M.count_ones'),
     'C11': ('V.splat', 'V.load_unaligned', 'V.cmpeq', 'V.and', 'V.movemask', 'M.has_non_zero', 'M.and', 'M.first_offset',
             'M.clear_least_significant_bit', 'M.all_zeros_except_least_significant'),
